@@ -1,5 +1,7 @@
 use anyhow::Result;
+use parol::generators::grammar_trans::check_and_transform_grammar_with_ignored;
 use parol::{generate_parser_export_model_from_grammar, obtain_grammar_config};
+use std::collections::BTreeSet;
 use std::path::PathBuf;
 
 /// Exports a language-agnostic parser model as JSON.
@@ -21,7 +23,20 @@ pub struct Args {
 }
 
 pub fn main(args: &Args) -> Result<()> {
-    let grammar_config = obtain_grammar_config(&args.grammar_file, false)?;
+    let mut grammar_config = obtain_grammar_config(&args.grammar_file, false)?;
+    // Export the model of the grammar the parser generator works on, i.e. after the checks and
+    // transformations (left-factoring resp. augmentation) that precede parser generation.
+    let ignored_unreachable_non_terminals = grammar_config
+        .unreachable_non_terminals_to_ignore
+        .iter()
+        .cloned()
+        .collect::<BTreeSet<String>>();
+    let cfg = check_and_transform_grammar_with_ignored(
+        &grammar_config.cfg,
+        grammar_config.grammar_type,
+        &ignored_unreachable_non_terminals,
+    )?;
+    grammar_config.update_cfg(cfg);
     let export_model = generate_parser_export_model_from_grammar(&grammar_config, args.lookahead)?;
 
     let json = if args.pretty {
